@@ -6,7 +6,8 @@
      reader  kastore_read (486-525) = kastore_read_header (153-196) ;
              kastore_read_descriptors (254-337) ; kastore_read_file (381-432) ;
              lazy arrays: kastore_read_item (434-461) ; lookup kastore_find_item (686-712, bsearch)
-   All size_t / uint64_t arithmetic of the reader is modelled modulo 2^64 ([w64]); the writer
+   The size_t / uint64_t sums of the packing loops are modelled modulo 2^64 ([w64]); the per-descriptor
+   bound checks are the non-wrapping ones of the repaired code; the writer
    is modelled without wrap-around and every theorem about it assumes the file size is below
    2^64.  Constants come from Gen/Generated.v (regenerated from kastore.h / kastore.c). *)
 From Coq Require Import List ZArith Bool Lia.
@@ -145,8 +146,11 @@ Fixpoint parse_descs (fs : Z) (n : nat) (buf : list Z) : res (list rdesc) :=
   | S n' =>
     let d := parse_desc (firstn 64 buf) in
     if kas_num_types <=? d_type d then Err E_BAD_TYPE else
-    if fs <? w64 (d_ks d + d_kl d) then Err E_FORMAT else
-    if fs <? w64 (d_as d + d_al d * type_size (d_type d)) then Err E_FORMAT else
+    (* bounds written so that the sums cannot wrap around (fix fd85063):
+       key_len > file_size || key_start > file_size - key_len, and
+       array_start > file_size || array_len > (file_size - array_start) / type_size(type) *)
+    if (fs <? d_kl d) || (fs - d_kl d <? d_ks d) then Err E_FORMAT else
+    if (fs <? d_as d) || ((fs - d_as d) / type_size (d_type d) <? d_al d) then Err E_FORMAT else
     match parse_descs fs n' (skipn 64 buf) with
     | Ok r => Ok (d :: r)
     | e => e
